@@ -1,6 +1,8 @@
 """C19 — dataset classes: correspondence of Model/DatasetClass.v with labrea.datasetclass, and the
 property's own oracle on the implementation (members are evaluations, class operations are unions,
-== follows the relevant options, repr shows them, the caller's dictionary is left alone).
+== follows the relevant options, repr shows them, the caller's dictionary is left alone; what the caller
+does with its own dictionary object AFTER an instantiation -- in-place edits, further instantiations from
+the same object -- changes nothing about the instances already built: oracle_reuse, shared oracle_pairs).
 
 Classes are built through the public API only (`datasetclass`, `Option`, `dataset`); a world is a
 JSON-able description from which both the live classes and the Gallina terms are produced."""
@@ -292,7 +294,10 @@ def construct(cls, o):
 
 
 def parse_repr(cls, inst):
-    r = repr(inst)
+    try:
+        r = repr(inst)
+    except Exception:  # noqa  a repr that raises shows nothing
+        return None
     head = cls.__name__ + "("
     if not (r.startswith(head) and r.endswith(")")):
         return None
@@ -302,12 +307,16 @@ def parse_repr(cls, inst):
         return None
 
 
-def observe_impl(w, ci, o):
+def observe_impl(w, ci, o, after_build=None):
+    """after_build(work): what the CALLER does with its own dictionary object after the instance was built and
+    before anything of the instance is read (in-place edits, a second instantiation from the same object)"""
     cls = w.classes[ci]
     mem = w.members(ci)
     work = copy.deepcopy(o)
     kind, res = construct(cls, work)
     caller = "=" if strict_same(work, o) else show_j(work)
+    if after_build is not None and kind == "ok":
+        after_build(work)
     if kind == "ok":
         vis = sorted(n for n in mem if not n.startswith("__"))
         shown = []
@@ -330,12 +339,32 @@ def observe_impl(w, ci, o):
     return "|".join([first, ks, ex, va, caller, side]), dict(kind=kind, keys=kset, side=side)
 
 
-def eq_matrix_impl(w, cis, dicts):
+def refill(work, o):
+    """the caller re-uses ONE dictionary object: emptied and filled again in place (fresh nested values)"""
+    work.clear()
+    work.update(copy.deepcopy(o))
+    return work
+
+
+def safe_eq(a, b):
+    """a == b as 'T' / 'F', '!' when the comparison raises"""
+    try:
+        return "T" if (a == b) else "F"
+    except Exception:  # noqa
+        return "!"
+
+
+def eq_matrix_impl(w, cis, dicts, shared=False):
+    """shared: every instance is built from the SAME caller dictionary object, refilled in place between the
+    instantiations; all comparisons happen after the last instantiation"""
     insts = []
+    work = {}
     for ci in cis:
         for o in dicts:
-            kind, res = construct(w.classes[ci], copy.deepcopy(o))
+            kind, res = construct(w.classes[ci], refill(work, o) if shared else copy.deepcopy(o))
             insts.append(res if kind == "ok" else None)
+    if shared:
+        refill(work, {})
     out = []
     for a in insts:
         row = ""
@@ -343,7 +372,7 @@ def eq_matrix_impl(w, cis, dicts):
             if a is None or b is None:
                 row += "-"
             else:
-                row += "T" if (a == b) else "F"
+                row += safe_eq(a, b)
         out.append(row + "/")
     return "".join(out)
 
@@ -437,7 +466,7 @@ def oracle_single(w, ci, o, viol, scen):
         # evaluate == instantiate
         k2, inst2 = construct_eval(cls, copy.deepcopy(o))
         checks += 1
-        if not (k2 == "ok" and inst2 == inst and all(show_j(getattr(inst2, n)) == show_j(getattr(inst, n)) for n in vis)):
+        if not (k2 == "ok" and safe_eq(inst2, inst) == "T" and all(show_j(getattr(inst2, n)) == show_j(getattr(inst, n)) for n in vis)):
             bad("cls.evaluate(options) differs from cls(options)")
     # class operations are unions
     for method in ("keys", "explain"):
@@ -495,7 +524,7 @@ def oracle_single(w, ci, o, viol, scen):
         checks += 1
         if want is not None and not (isinstance(shown, dict) and show_j(shown) == show_j(want)):
             bad("repr does not show the options restricted to the reported keys",
-                repr=repr(inst), want=show_j(want))
+                repr=safe_repr(inst), want=show_j(want))
     return checks
 
 
@@ -509,14 +538,17 @@ def construct_eval(cls, o):
         return "raw", raw_class(e)
 
 
-def oracle_pairs(w, cis, dicts, viol, scen, stats):
-    """== over all pairs: same class -> iff the restricted dictionaries are equal; different class -> never."""
+def oracle_pairs(w, cis, dicts, viol, scen, stats, shared=False):
+    """== over all pairs: same class -> iff the restricted dictionaries are equal; different class -> never.
+    shared: all instances are built from ONE caller dictionary object that is refilled in place between the
+    instantiations (a parameter sweep re-using its dictionary); the comparisons come after the last one"""
     checks = 0
     built = {}
+    work = {}
     for ci in cis:
         cls = w.classes[ci]
         for di, o in enumerate(dicts):
-            kind, inst = construct(cls, copy.deepcopy(o))
+            kind, inst = construct(cls, refill(work, o) if shared else copy.deepcopy(o))
             if kind != "ok":
                 continue
             try:
@@ -524,26 +556,235 @@ def oracle_pairs(w, cis, dicts, viol, scen, stats):
             except Exception:  # noqa
                 continue
             built[(ci, di)] = (inst, r)
+    if shared:
+        refill(work, {})
     for (ca, da), (ia, ra) in built.items():
         for (cb, db), (ib, rb) in built.items():
             checks += 1
-            got = (ia == ib)
-            ne = (ia != ib)
+            try:
+                got = (ia == ib)
+                ne = (ia != ib)
+            except Exception as e:  # noqa
+                got, ne = "raises " + type(e).__name__, None
             if ca == cb:
                 want = (ra == rb)           # Python == on the restricted dictionaries
-                if want and not strict_same(dicts[da], dicts[db]):
-                    stats["equal_though_dicts_differ"] += 1
-                if not want:
-                    stats["unequal"] += 1
+                if not shared:
+                    if want and not strict_same(dicts[da], dicts[db]):
+                        stats["equal_though_dicts_differ"] += 1
+                    if not want:
+                        stats["unequal"] += 1
             else:
                 want = False
-                stats["cross_class"] += 1
+                if not shared:
+                    stats["cross_class"] += 1
+            if shared:
+                stats["pairs_from_one_reused_dictionary_object"] += 1
             if got != want or ne == got:
-                viol.append(dict(desc="instance equality does not follow the restricted options"
-                                      if ca == cb else "instances of different classes compare equal",
+                how = " (all instances built from one caller dictionary object, refilled in place between instantiations)" if shared else ""
+                viol.append(dict(desc=("instance equality does not follow the restricted options"
+                                       if ca == cb else "instances of different classes compare equal") + how,
                                  finding=None, **scen, class_a=ca, class_b=cb, dict_a=dicts[da], dict_b=dicts[db],
                                  restricted_a=show_j(ra), restricted_b=show_j(rb), eq=got, ne=ne, want=want))
     return checks
+
+
+# ----------------------------------------------------------------------------- the caller keeps using its dictionary
+
+EDIT_VALUES = [0, 1, 2, 3, 9, None, "u", "w", [1], [2, 3], {"X": 7}, {"Y": 1}, True, False]
+NEW_TOP = ["A", "B", "Q", "AB", "ZZ"]
+NEW_IN = ["X", "Y", "Z", "XY", "U", "K", "V", "W", "EXTRA"]
+DELETE = ["<delete>"]
+
+
+def edit_candidates(o):
+    """paths of the caller's dictionary at which an entry can be assigned / deleted in place: every existing entry
+    of every (nested) dictionary, and a few absent ones"""
+    out = [list(p) for p in leaf_paths(o)]
+    out += [[k] for k in NEW_TOP if k not in o]
+    for p in leaf_paths(o):
+        v = get_path(o, p)
+        if isinstance(v, dict):
+            out += [list(p) + [k] for k in NEW_IN if k not in v][:3]
+    return out
+
+
+def shares_value(path, keys):
+    """The dictionary that the edit at `path` writes into is (inside) the VALUE of a reported key: that value
+    object was handed to the instance as a member's evaluation (Option('S') evaluates to the caller's own nested
+    dictionary), so editing it edits the member's value itself; such edits are not 'the options the instance was
+    built from' changing afterwards and are left out (see aliasing_probe).  The top-level dictionary is never a
+    value."""
+    parent = path[:-1]
+    return any(k.split(".") == parent[:len(k.split("."))] for k in keys) if parent else False
+
+
+def relevant(path, keys):
+    ks = [k.split(".") for k in keys]
+    return any(k[:len(path)] == path or path[:len(k)] == k for k in ks)
+
+
+def plan_edits(rng, o, keys):
+    """1-3 in-place edits of the caller's dictionary (assignment of another value, deletion, a new entry), mostly
+    at or around the reported keys; never inside a value object shared with the instance"""
+    cands = [p for p in edit_candidates(o) if not shares_value(p, keys)]
+    rel = [p for p in cands if relevant(p, keys)]
+    edits, cur = [], copy.deepcopy(o)
+    for _ in range(rng.choice([1, 1, 2, 3])):
+        pool = rel if (rel and rng.random() < 0.8) else cands
+        if not pool:
+            break
+        p = rng.choice(pool)
+        try:
+            parent = get_path(cur, p[:-1])
+        except Exception:  # noqa  an earlier edit removed / replaced the parent
+            continue
+        if not isinstance(parent, dict):
+            continue
+        if p[-1] in parent and rng.random() < 0.2:
+            edits.append([p, DELETE])
+            del parent[p[-1]]
+        else:
+            old = parent.get(p[-1], DELETE)
+            new = rng.choice([x for x in EDIT_VALUES if old is DELETE or show_j(x) != show_j(old)])
+            edits.append([p, copy.deepcopy(new)])
+            parent[p[-1]] = copy.deepcopy(new)
+    return edits
+
+
+def apply_edits(work, edits):
+    for p, v in edits:
+        parent = get_path(work, p[:-1])
+        if v is DELETE or v == DELETE:
+            del parent[p[-1]]
+        else:
+            parent[p[-1]] = copy.deepcopy(v)
+
+
+def class_op(cls, method, o):
+    try:
+        r = getattr(cls, method)(o)
+        return ("ok", None if method == "validate" else set(r))
+    except Exception as e:  # noqa
+        return ("err", canon_err(e))
+
+
+def oracle_reuse(w, ci, o, viol, scen, rng, stats):
+    """The caller goes on using the dictionary object it instantiated from: edits it in place (assignments, deletions,
+    new entries, at top level and inside nested dictionaries), instantiates again from the same object, and only
+    then reads / prints / compares the FIRST instance.  The property speaks of 'the options each was built from':
+    members, repr and == of an instance are fixed when it is built; keys / explain / validate of the class on the
+    edited object are those of a fresh copy of its new contents."""
+    cls = w.classes[ci]
+    mem = w.members(ci)
+    objs = w.objs[ci]
+    ka = class_op(cls, "keys", copy.deepcopy(o))
+    if ka[0] != "ok":
+        return 0, None
+    keys_a = ka[1]
+    try:
+        want_a = own_restrict(o, keys_a)
+    except Exception:  # noqa
+        return 0, None
+    edits = plan_edits(rng, o, keys_a)
+    if not edits:
+        return 0, None
+    checks = 0
+
+    def bad(desc, **kw):
+        viol.append(dict(desc=desc + " [the caller's dictionary object was edited in place after the instantiation]",
+                         finding=None, **scen, edits=edits, **kw))
+
+    via_evaluate = rng.random() < 0.3
+    arm = rng.random() < 0.5
+    work = copy.deepcopy(o)
+    kind, inst1 = (construct_eval if via_evaluate else construct)(cls, work)
+    if kind != "ok":
+        return 0, None
+    if arm:      # the class-level operations saw this very object too
+        for method in ("keys", "validate", "explain"):
+            class_op(cls, method, work)
+    apply_edits(work, edits)
+    o_b = copy.deepcopy(work)
+    kind2, inst2 = construct(cls, work)
+    stats["reuse_scenarios"] += 1
+    # class operations on the edited object
+    for method in ("keys", "explain", "validate"):
+        got, want = class_op(cls, method, work), class_op(cls, method, copy.deepcopy(o_b))
+        checks += 1
+        if got != want:
+            bad(f"class {method}() on the caller's edited dictionary differs from {method}() on a fresh copy of its contents",
+                got=repr(got), want=repr(want))
+    if not strict_same(work, o_b):
+        bad("a class operation / the constructor modified the caller's dictionary", after=work)
+        refill(work, o_b)
+    # the first instance is what it was built as
+    vis = sorted(n for n in mem if not n.startswith("__"))
+    for n in vis:
+        k, v = direct_eval(objs[n], mem[n], copy.deepcopy(o))
+        checks += 1
+        try:
+            got = show_j(getattr(inst1, n))
+        except Exception as e:  # noqa
+            got = "raises " + type(e).__name__
+        if k != "ok" or got != show_j(v):
+            bad("instance attribute differs from the member's evaluation under the options the instance was built from",
+                member=n, got=got, want=show_j(v) if k == "ok" else v)
+    shown = parse_repr(cls, inst1)
+    checks += 1
+    if not (isinstance(shown, dict) and show_j(shown) == show_j(want_a)):
+        bad("repr does not show the options the instance was built from, restricted to the reported keys",
+            repr=safe_repr(inst1), want=show_j(want_a))
+    kf, fresh = construct(cls, copy.deepcopy(o))
+    checks += 1
+    if kf != "ok" or safe_eq(inst1, fresh) != "T" or safe_eq(fresh, inst1) != "T" or safe_ne(inst1, fresh) != "F":
+        bad("an instance does not compare equal to a fresh instance built from the same options",
+            eq=safe_eq(inst1, fresh), ne=safe_ne(inst1, fresh))
+    if kind2 == "ok":
+        kb = class_op(cls, "keys", copy.deepcopy(o_b))
+        try:
+            want_b = own_restrict(o_b, kb[1]) if kb[0] == "ok" else None
+        except Exception:  # noqa
+            want_b = None
+        if want_b is not None:
+            want_eq = "T" if want_a == want_b else "F"
+            stats["reuse_restrictions_differ" if want_eq == "F" else "reuse_restrictions_equal"] += 1
+            checks += 2
+            if safe_eq(inst1, inst2) != want_eq or safe_eq(inst2, inst1) != want_eq or safe_ne(inst1, inst2) == want_eq:
+                bad("equality of two instances built from one dictionary object (edited in between) does not follow the restricted "
+                    "options each was built from", eq=safe_eq(inst1, inst2), ne=safe_ne(inst1, inst2), want=want_eq,
+                    restricted_a=show_j(want_a), restricted_b=show_j(want_b), options_b=o_b)
+            shown2 = parse_repr(cls, inst2)
+            if not (isinstance(shown2, dict) and show_j(shown2) == show_j(want_b)):
+                bad("repr of the second instance does not show the options it was built from", repr=safe_repr(inst2),
+                    want=show_j(want_b), options_b=o_b)
+            # ... and nothing moves when the caller empties its dictionary afterwards
+            refill(work, {})
+            checks += 2
+            if show_j(parse_repr(cls, inst1)) != show_j(shown) or show_j(parse_repr(cls, inst2)) != show_j(shown2):
+                bad("repr of an instance changed when the caller emptied its dictionary afterwards",
+                    before=[show_j(shown), show_j(shown2)], after=[safe_repr(inst1), safe_repr(inst2)])
+            if safe_eq(inst1, inst2) != want_eq:
+                bad("equality of two instances changed when the caller emptied its dictionary afterwards",
+                    eq=safe_eq(inst1, inst2), want=want_eq)
+
+    def after_build(wk):
+        apply_edits(wk, edits)
+        construct(cls, wk)
+    return checks, after_build
+
+
+def safe_repr(x):
+    try:
+        return repr(x)
+    except Exception as e:  # noqa
+        return "repr raises " + type(e).__name__
+
+
+def safe_ne(a, b):
+    try:
+        return "T" if (a != b) else "F"
+    except Exception:  # noqa
+        return "!"
 
 
 # ----------------------------------------------------------------------------- generators
@@ -780,7 +1021,11 @@ def zone_L(keys):
     return keys is not None and any(is_idx(s) for k in keys for s in k.split("."))
 
 
-def run_world(w, spec, cases, viol, stats, distinct, pending_known):
+def run_world(w, spec, cases, viol, stats, distinct, pending_known, alts=None):
+    """alts: further implementation observations that the model line of an existing case must equal as well
+    (the model has values only: what the caller does to its dictionary object afterwards cannot matter)"""
+    import random
+    alts = [] if alts is None else alts
     dicts = spec["dicts"]
     cis = list(range(len(spec["classes"])))
     checks = 0
@@ -797,6 +1042,15 @@ def run_world(w, spec, cases, viol, stats, distinct, pending_known):
                 v["case_index"] = idx
                 if v.get("zone_hint") == "constructor" and info["kind"] == "raw" and zone_L(info["keys"]):
                     pending_known.append(v)
+            # the caller edits the dictionary object in place after the instantiation (edits drawn from a generator
+            # seeded by the scenario itself: a replay draws the same ones)
+            if info["kind"] == "ok" and (ci + di) % 3 == 0:
+                erng = random.Random(lib.stable_hash([spec["classes"][ci]["body"], spec["classes"][ci]["name"], show_j(o), di]))
+                n, after_build = oracle_reuse(w, ci, o, viol, scen, erng, stats)
+                checks += n
+                if after_build is not None:
+                    line2, _ = observe_impl(w, ci, o, after_build)
+                    alts.append((idx, line2, scen, "the caller edited its dictionary in place and instantiated again before the first instance was read"))
             stats["outcome_" + info["kind"]] += 1
             stats["side_" + info["side"]] += 1
             mem = w.members(ci)
@@ -810,8 +1064,11 @@ def run_world(w, spec, cases, viol, stats, distinct, pending_known):
                 stats["key_and_prefix_reported"] += 1
     scen = dict(world=spec, cls=None, dict_index=None)
     checks += oracle_pairs(w, cis, dicts, viol, scen, stats)
+    checks += oracle_pairs(w, cis, dicts, viol, scen, stats, shared=True)
     expr = "eq_matrix [" + "; ".join(w.coq_class(ci) for ci in cis) + "] [" + "; ".join(coq_dict(o) for o in dicts) + "]"
     cases.append((expr, eq_matrix_impl(w, cis, dicts), scen))
+    alts.append((len(cases) - 1, eq_matrix_impl(w, cis, dicts, shared=True), scen,
+                 "all instances built from one caller dictionary object refilled in place"))
     return checks
 
 
@@ -843,7 +1100,7 @@ def run(ctx):
     rng = ctx.rng
     n_valid, n_malformed, n_defect = (200, 40, 80) if ctx.quick else (2500, 400, 900)
     stats = collections.Counter()
-    cases, viol, distinct, pending_known = [], [], set(), []
+    cases, viol, distinct, pending_known, alts = [], [], set(), [], []
     checks = 0
     specs = systematic_worlds(False, triples=not ctx.quick) + systematic_worlds(True, False)
     specs += [gen_world(rng, i, "valid") for i in range(n_valid)]
@@ -860,12 +1117,16 @@ def run(ctx):
                 stats["classes_with_plain_base"] += 1
             if c["parent"] is not None:
                 stats["classes_deriving_from_dataset_class"] += 1
-        checks += run_world(w, spec, cases, viol, stats, distinct, pending_known)
+        checks += run_world(w, spec, cases, viol, stats, distinct, pending_known, alts)
     model_lines = ctx.coq_eval("Cases_C19", REQ, "", [c[0] for c in cases], shard=150)
     mism = []
     for (expr, line, scen), ml in zip(cases, model_lines):
         if ml != line:
             mism.append(dict(where="Model/DatasetClass.v vs labrea.datasetclass", scenario=slim(scen), impl=line, model=ml))
+    for idx, line, scen, what in alts:
+        if model_lines[idx] != line:
+            mism.append(dict(where="Model/DatasetClass.v vs labrea.datasetclass (" + what + ")", scenario=slim(scen), impl=line,
+                             model=model_lines[idx]))
     # a constructor failure in the list-index zone on which the model agrees with the implementation
     # is the known finding C19-L; anything else stays an untagged violation
     for v in pending_known:
@@ -889,15 +1150,22 @@ def run(ctx):
                 "constructor succeeds and the class reports at least one key; distinct by hash of (class bodies, dictionary). "
                 "Streams: systematic (every 1- and 2-member class over 11 member shapes x 16 dictionaries differing in one relevant "
                 "or irrelevant nested key, permuted, extended, truncated), random valid (2-6 members, plain base classes, dataset-class "
-                "subclasses, twins), defect (list-index keys, scalar parents).",
+                "subclasses, twins), defect (list-index keys, scalar parents). Caller-side histories on every third (class, dictionary): "
+                "the caller's dictionary object is edited in place after the instantiation (1-3 assignments / deletions / new entries at and "
+                "around the reported keys, top level and nested; never inside a value object that is itself a reported key's value), a second "
+                "instance is built from the same object (through cls(...) or cls.evaluate(...), with or without keys/validate/explain having "
+                "seen the object), and only then the first instance is read, printed and compared; all pairs again with every instance built "
+                "from ONE dictionary object refilled in place. The model has values only, so those observations must equal the model line of "
+                "the plain case.",
         "samples": samples,
-        "traces_validated_against_impl": len(cases),
+        "traces_validated_against_impl": len(cases) + len(alts),
         "correspondence_mismatches": mism[:5],
         "violations": violations,
         "known": [dict(id=FINDING_L, still_fails=bool(still),
                        what="members Option('L') and Option('L.0') on {'L': [1, 2]}: both evaluate, the constructor raises TypeError",
                        detail=detail, generated_hits=tagged)],
         "distribution": dict(stats, member_kinds=dict(member_kinds), oracle_checks=checks, model_cases=len(cases),
+                             model_cases_observed_again_after_caller_edits=len(alts),
                              mismatches=len(mism), untagged_violations=sum(1 for v in viol if v["finding"] is None)),
         "exhaustive": False,
         "notes": ["observation (outside the property's text): an instance built from a class reporting both 'S' and 'S.X' shares the "
@@ -940,10 +1208,12 @@ def replay(ctx, payload):
         return True, {"note": "payload names no scenario (broken obligation or correspondence); re-run the check", "payload": payload}
     spec = dict(classes=spec["classes"], dicts=spec["dicts"], stream=spec.get("stream", "replay"))
     w = World(spec)
-    cases, viol, pending = [], [], []
-    run_world(w, spec, cases, viol, collections.Counter(), set(), pending)
+    cases, viol, pending, alts = [], [], [], []
+    run_world(w, spec, cases, viol, collections.Counter(), set(), pending, alts)
     model_lines = ctx.coq_eval("Replay_C19", REQ, "", [c[0] for c in cases], shard=150)
     mism = [dict(impl=c[1], model=ml, scenario=slim(c[2])) for c, ml in zip(cases, model_lines) if ml != c[1]]
+    mism += [dict(impl=line, model=model_lines[idx], scenario=slim(scen), how=what) for idx, line, scen, what in alts
+             if model_lines[idx] != line]
     for v in pending:
         if model_lines[v["case_index"]] == cases[v["case_index"]][1]:
             v["finding"] = FINDING_L
